@@ -75,6 +75,10 @@ func CheckSingleWriter(res *ChurnResult) (findings []Finding, uncertainKeys int,
 	}
 	sort.Ints(clients)
 	add := func(key, what string, o OpRec, m *keyModel) {
+		if y, t, ok := ackedWriteWentToNonOwner(res, o, m); ok {
+			key += ":written-to-non-owner"
+			what += fmt.Sprintf(" [the acknowledged write was executed at t=%dus by a node that was not the owner: node %d (joined, not leaving) owned the key then]", t, y)
+		}
 		findings = append(findings, Finding{Key: key, What: what, Witness: map[string]any{"op": o, "model_value": m.value, "model_children": setString(m.children), "last_ack": m.lastAck, "member_log": res.MemberLog, "hook_log": res.HookLog, "store_events": storeEvents(res, o.Key+"/")}})
 	}
 	for _, c := range clients {
@@ -260,14 +264,33 @@ func CheckOwnership(res *ChurnResult) (findings []Finding, keysSeen int) {
 			h := chord.Hash([]byte(k))
 			owner := OwnerOf(ids, h)
 			if owner != id {
-				findings = append(findings, Finding{Key: "key-outside-ownership-range", What: fmt.Sprintf("node %d stores key %s (hash %d) whose owner in ring %v is %d", id, k, h, ids, owner),
+				key := "key-outside-ownership-range"
+				how := ""
+				if y, t, ok := writtenToNonOwner(res, id, k, h); ok {
+					// the data got there by a client write that this node accepted although another node,
+					// fully joined and not leaving at that moment, was the owner (lookup through pointers
+					// that were being repaired + ownership verified against an equally stale predecessor)
+					key += ":written-to-non-owner"
+					how = fmt.Sprintf("; the value was written there at t=%dus by a client request although node %d (joined, not leaving) owned the key at that time", t, y)
+				}
+				findings = append(findings, Finding{Key: key, What: fmt.Sprintf("node %d stores key %s (hash %d) whose owner in ring %v is %d%s", id, k, h, ids, owner, how),
 					Witness: map[string]any{"node": id, "key": k, "hash": h, "ring": ids, "owner": owner, "member_log": res.MemberLog, "hook_log": res.HookLog, "store_events": storeEvents(res, k+"/")}})
 			}
 		}
 	}
 	for k, hs := range holders {
 		if len(hs) > 1 {
-			findings = append(findings, Finding{Key: "key-on-two-nodes", What: fmt.Sprintf("key %s is stored on nodes %v", k, hs), Witness: map[string]any{"key": k, "holders": hs, "ring": ids}})
+			key := "key-on-two-nodes"
+			h := chord.Hash([]byte(k))
+			for _, id := range hs {
+				if OwnerOf(ids, h) != id {
+					if _, _, ok := writtenToNonOwner(res, id, k, h); ok {
+						key += ":written-to-non-owner"
+						break
+					}
+				}
+			}
+			findings = append(findings, Finding{Key: key, What: fmt.Sprintf("key %s is stored on nodes %v", k, hs), Witness: map[string]any{"key": k, "holders": hs, "ring": ids, "store_events": storeEvents(res, k+"/")}})
 		}
 	}
 	return
@@ -504,4 +527,109 @@ func storeEvents(res *ChurnResult, pk string) []StoreEvent {
 		return nil
 	}
 	return res.StoreEventsFor(pk[:strings.Index(pk, "/")])
+}
+
+// writtenToNonOwner explains a misplaced key from the store-level record: the node holds the
+// key because it executed a client write for it (not an import) at a time when another node
+// that had definitely joined and had not been asked to leave was the owner.
+func writtenToNonOwner(res *ChurnResult, node uint64, key string, hash uint64) (owner uint64, at int64, ok bool) {
+	if res.StoreEventsFor == nil {
+		return 0, 0, false
+	}
+	present := false
+	var origin StoreEvent
+	for _, e := range res.StoreEventsFor(key) {
+		if e.Node != node {
+			continue
+		}
+		switch e.Op {
+		case "RemoveKeys":
+			present = false
+		case "Put", "Append", "Import":
+			if !present && strings.HasPrefix(e.Res, "ok") {
+				present = true
+				origin = e
+			}
+		}
+	}
+	if !present || origin.Op == "Import" {
+		return 0, 0, false
+	}
+	// definite members at the time of the write
+	ids := []uint64{node}
+	for id, sp := range res.Timeline {
+		if id == node || sp.Joined == 0 || sp.Joined > origin.T {
+			continue
+		}
+		if sp.LeaveStart != 0 && sp.LeaveStart <= origin.T {
+			continue
+		}
+		ids = append(ids, id)
+	}
+	sort.Slice(ids, func(i, j int) bool { return ids[i] < ids[j] })
+	if o := OwnerOf(ids, hash); o != node {
+		return o, origin.T, true
+	}
+	return 0, 0, false
+}
+
+// ackedWriteWentToNonOwner: the acknowledged write that the failing read misses (the last
+// acknowledged value, or the append of a child the read does not show) was executed by the
+// store of a node that was not the owner at that time (see writtenToNonOwner).
+func ackedWriteWentToNonOwner(res *ChurnResult, read OpRec, m *keyModel) (owner uint64, at int64, ok bool) {
+	if res.StoreEventsFor == nil {
+		return 0, 0, false
+	}
+	evs := res.StoreEventsFor(read.Key)
+	hash := chord.Hash([]byte(read.Key))
+	check := func(op, arg string) (uint64, int64, bool) {
+		var last *StoreEvent
+		for i := range evs {
+			if evs[i].Op == op && evs[i].Arg == arg && strings.HasPrefix(evs[i].Res, "ok") {
+				last = &evs[i]
+			}
+		}
+		if last == nil {
+			return 0, 0, false
+		}
+		ids := []uint64{last.Node}
+		for id, sp := range res.Timeline {
+			if id == last.Node || sp.Joined == 0 || sp.Joined > last.T || (sp.LeaveStart != 0 && sp.LeaveStart <= last.T) {
+				continue
+			}
+			ids = append(ids, id)
+		}
+		sort.Slice(ids, func(i, j int) bool { return ids[i] < ids[j] })
+		if o := OwnerOf(ids, hash); o != last.Node {
+			return o, last.T, true
+		}
+		return 0, 0, false
+	}
+	switch read.Kind {
+	case OpGet:
+		if m.value != "" && read.Value != m.value {
+			return check("Put", m.value)
+		}
+	case OpList:
+		have := map[string]bool{}
+		for _, c := range read.List {
+			have[c] = true
+		}
+		for c, present := range m.children {
+			if present && !have[c] {
+				if o, t, ok := check("Append", c); ok {
+					return o, t, true
+				}
+			}
+		}
+	case OpContains:
+		if m.children[read.Arg] && !read.Bool {
+			return check("Append", read.Arg)
+		}
+	case OpAppend:
+		if m.children[read.Arg] && !read.Conflict {
+			return check("Append", read.Arg)
+		}
+	}
+	return 0, 0, false
 }
